@@ -122,19 +122,84 @@ theorem C11_lose_frame (p : Proc) (now i j : Nat) (hij : j ≠ i) :
     · cases hp
   · injection hp with hp; subst hp; rfl
 
-/-! ### The input class on which the current code departs from the statement (known finding), and the one that was repaired -/
+/-! ### Full strength: every history the implementation accepts
 
-/-- the full-strength listing statement, for *every* guarded history (`upd`/`remove` only on existing entries) -/
+Both input classes that used to be excluded (`C11:lose-while-only-stopping`, `C11:remove-entry-not-stopped`) have been repaired
+in the code (a0ba3bf, and the repair of `ProcessStatus.remove_identifier`), so that the only hypothesis left is that the history
+does not make the synthesis raise - which is exactly "`upd` / `remove` about an instance that has no entry", refused by
+`Context.check_process` before it reaches the status. -/
+
+/-- an operation the model accepts from a related state is admissible -/
+theorem opOk_of_ok (p : Proc) (V : Nat → View) (now : Nat) (op : POp) (hrel : Rel p V) :
+    ∀ p', pstep p now op = .ok p' → OpOk V op := by
+  intro p' hp
+  cases op with
+  | upd j s e et dis =>
+    simp only [OpOk]
+    have hent := hrel.entries j
+    cases hg : p.infos.get? j with
+    | none => simp [pstep, updateInfo, hg] at hp
+    | some w => rw [hg] at hent; cases hl : (V j).last <;> simp_all
+  | remove j =>
+    simp only [OpOk]
+    have hent := hrel.entries j
+    cases hg : p.infos.get? j with
+    | none => simp [pstep, hg] at hp
+    | some w => rw [hg] at hent; cases hl : (V j).last <;> simp_all
+  | add _ _ _ _ _ => trivial
+  | lose _ => trivial
+  | force _ _ _ => trivial
+  | disable _ _ => trivial
+  | tick _ _ => trivial
+
+theorem prun_rel_of_ok (h : List (Nat × POp)) (p : Proc) (V : Nat → View) (hrel : Rel p V) :
+    ∀ p', prun p h = .ok p' → Rel p' (foldViews V h) := by
+  induction h generalizing p V with
+  | nil => intro p' hp; simp only [prun] at hp; injection hp with hp; subst hp; simpa [foldViews] using hrel
+  | cons x t ih =>
+    obtain ⟨now, op⟩ := x
+    intro p' hp
+    simp only [prun] at hp
+    cases h1 : pstep p now op with
+    | err e => rw [h1] at hp; cases hp
+    | ok p1 =>
+      rw [h1] at hp
+      have hok := opOk_of_ok p V now op hrel p1 h1
+      obtain ⟨p1', hp1', hrel1⟩ := (pstep_rel p V now op hrel hok).exists
+      rw [h1] at hp1'; injection hp1' with hp1'; subst hp1'
+      exact ih p1 _ hrel1 p' hp
+
+/-- the full-strength listing statement, for *every* history the synthesis accepts -/
 def C11_listed_iff_spec_statement : Prop :=
   ∀ h : List (Nat × POp), ∀ p, prun {} h = .ok p → ∀ i, i ∈ p.running ↔ (view i h).listed = true
 
-/-- Known finding `C11:remove-entry-not-stopped` refutes it: removing an entry that is still running leaves it listed.
-    (Until the repair of `Context.invalidate_failed` a second class did: `C11:lose-while-only-stopping`.) -/
-theorem C11_listed_iff_spec_refuted : ¬ C11_listed_iff_spec_statement := by
-  intro hs
-  have := hs [(1, .add 0 .running false 106 false), (2, .remove 0)] _ rfl 0
-  revert this
-  decide
+/-- **C11, listing clause (full strength).**  For EVERY history of snapshots, events in any order, instance losses, removals,
+    forced states, disability changes and ticks, over any number of instances, that does not make the synthesis raise: an
+    instance is listed as running iff the fold of its own reports says so. -/
+theorem C11_listed_iff_spec : C11_listed_iff_spec_statement := by
+  intro h p hp i
+  have hrel := prun_rel_of_ok h {} _ rel_init p hp
+  rw [hrel.listed i, foldViews_apply]
+  rfl
+
+/-- **C11, conflict clause (full strength).**  The listing never holds an instance twice, so "conflict flagged iff the list has
+    two or more entries" counts distinct instances - for every history the synthesis accepts. -/
+theorem C11_running_nodup (h : List (Nat × POp)) (p : Proc) (hp : prun {} h = .ok p) :
+    p.running.Nodup ∧ (conflicting p = true ↔ 2 ≤ p.running.length) := by
+  have hrel := prun_rel_of_ok h {} _ rel_init p hp
+  exact ⟨hrel.nodup, by simp [conflicting]; omega⟩
+
+/-- **C11, state clause, stopped part (full strength).**  The synthetic state is never stopped-like while an instance is listed. -/
+theorem C11_stopped_state_lists_nobody (h : List (Nat × POp)) (p : Proc) (hp : prun {} h = .ok p)
+    (hst : p.state.isStopped = true) : p.running = [] :=
+  (prun_rel_of_ok h {} _ rel_init p hp).stoppedEmpty hst
+
+/-- the only way to raise: an update or a removal about an instance that has no entry (`KeyError`; `Context.check_process`
+    filters them out) -/
+theorem C11_raises_only_without_entry (h : List (Nat × POp)) (hok : HistOk (fun _ => View.init) h) :
+    ∃ p, prun {} h = .ok p := by
+  obtain ⟨p, hp, _⟩ := (prun_rel h {} _ rel_init hok).exists
+  exact ⟨p, hp⟩
 
 /-- **C11 (a lost instance is never left listed) - repaired defect `C11:lose-while-only-stopping`.**  Whatever the process
     (any entries, any synthetic state - in particular when its only listed copies are STOPPING), once the loss of instance `i`
@@ -171,10 +236,11 @@ theorem C11_lose_unlists (p : Proc) (now i : Nat) (hnd : p.running.Nodup) :
 example : ∃ p, prun {} [(1, .add 1 .starting true 117 false), (2, .upd 1 .stopping true 121 false), (3, .lose 1)] = .ok p
     ∧ p.running = [] ∧ p.state = .fatal := ⟨_, rfl, by decide, by decide⟩
 
-/-- Known finding `C11:remove-entry-not-stopped`: removing an entry that is still running leaves it listed. -/
-theorem C11_remove_running_stays_listed :
-    ∃ h p, prun {} h = .ok p ∧ 0 ∈ p.running ∧ (view 0 h).listed = false :=
-  ⟨[(1, .add 0 .running false 106 false), (2, .remove 0)], _, rfl, by decide, by decide⟩
+/-- **C11 (a removed entry is never left listed) - repaired defect `C11:remove-entry-not-stopped`.**  The witness history of the
+    former known finding (an entry removed while its last report is RUNNING), now in agreement with the statement. -/
+example : ∃ p, prun {} [(1, .add 0 .running false 106 false), (1, .add 1 .running false 107 false), (2, .remove 0)] = .ok p
+    ∧ p.running = [1] ∧ (view 0 [(1, .add 0 .running false 106 false), (1, .add 1 .running false 107 false), (2, .remove 0)]).listed = false :=
+  ⟨_, rfl, by decide, by decide⟩
 
 /-! ### Non-vacuity: admissible histories with a conflict, a loss and a removal exist -/
 
@@ -183,7 +249,7 @@ example : HistOk (fun _ => View.init)
      (4, .lose 2), (5, .upd 1 .stopped true 6 false), (6, .remove 1)] := by
   refine ⟨trivial, trivial, by simp [OpOk, stepViews, viewStep, View.init, listedStep, PState.isRunning, PState.isStopped],
           trivial, by simp [OpOk, stepViews, viewStep, View.init, listedStep, PState.isRunning, PState.isStopped], ?_, trivial⟩
-  · exact ⟨.stopped, true, by simp [stepViews, viewStep, View.init, listedStep, PState.isRunning, PState.isStopped]⟩
+  · simp [OpOk, stepViews, viewStep, View.init, listedStep, PState.isRunning, PState.isStopped]
 
 example : ∃ p, prun {} [(1, .add 1 .running true 1 false), (2, .add 2 .starting true 2 false),
                         (3, .upd 1 .stopping true 3 false)] = .ok p
